@@ -20,14 +20,18 @@ META = {
     "combiner runs and their data are recorded each cycle and the Lean driver checks that the observed run is a run "
     "of the automaton with equal data; independent Python monitor with reference queues per link",
     "level_text": "c28_chain, c28_each_stage_once_in_order, c28_lossless, c28_exit_is_composition, c28_fields, c28_clear "
-    "(spec automaton, every shape, every schedule incl. clears) and c28_live (liveness pass) are proved; the "
+    "(spec automaton, every shape, every schedule incl. clears), c28_live (liveness pass) and c28_pipe_link, "
+    "c28_fifo_link, c28_links_refined (the lock-step product of the proved Pipe (C17) and BasicFifo (C14) component "
+    "models, one per link / decoupling pipe, is exactly the automaton) are proved; the "
     "implementation is tied to the automaton by trace inclusion on generated pipeline shapes (external / called-method / "
     "function stages, pipes, FIFOs of several depths, no_dependency nodes incl. the coupled-transaction use, stages whose "
     "method validates its arguments (validate_arguments; the automaton's guard), "
     "allow_unused/allow_empty) with cycle-exact comparison of which combiners ran, the fields they returned/received and "
     "decoupling-pipe entries, and comparison of get_live_signals with the modelled liveness pass",
     "level_note": "PARTIAL by design (DESIGN.md C28): proof of the specification automaton + trace validation of the "
-    "implementation; the implementation's firing schedule, readiness and progress are not predicted or proved. "
+    "implementation; the links are refined by the component models of the real forwarders, what is tied only by trace "
+    "inclusion is that the builder wires the stages to these components as the automaton says; the implementation's "
+    "firing schedule, readiness and progress are not predicted or proved. "
     "Stage functions in the correspondence are affine maps of the required fields modulo the field width (the "
     "theorems hold for arbitrary functions). trusted: Lean kernel, axioms propext/Classical.choice/Quot.sound; "
     "Amaranth semantics and pysim; the harness glue incl. looking up the combiner methods by their names "
